@@ -25,10 +25,12 @@ VARIABLES
   pend,       \* Seq of [caller, callee, ser, born, orph]  pending replies, oldest first (born/orph: cfg.epoch
               \* when recorded / when the callee went away, used only for the timing rules of the trace spec)
   mon,        \* [Slot -> Seq of rules] filters of monitors
+  act,        \* activation: [pend: Seq of [n, entries: Seq of [auto, s, un, m], born] (one per name being started, oldest
+              \* first), spawned: [name -> how many times a service process was started for it]]
   fdx,        \* [cap: [Slot -> BOOLEAN] fd passing negotiated, held: [Slot -> Seq of fd tokens received, not yet consumed]]
   out         \* Seq of [to, m] : what the last action staged
 
-vars == <<cfg, cst, dying, uid, uname, everNames, queue, rules, pend, mon, fdx, out>>
+vars == <<cfg, cst, dying, uid, uname, everNames, queue, rules, pend, mon, fdx, act, out>>
 
 BUS == S_org_freedesktop_DBus
 NoSlot == 0
@@ -166,6 +168,7 @@ Acquire(q, c, f) ==
    ELSE LET q1 == After1(Without(q, c), E) IN
         AcquireRes(IF h.dnq THEN Tail(q1) ELSE <<q1[2], q1[1]>> \o SubSeq(q1, 3, Len(q1)), 1, h.s, c)
 
+NoAct == [pend |-> <<>>, spawned |-> <<>>]
 \* ------------------------------------------------------------------ initial state, connections
 InitCfg(c) == cfg = c
 Init0 ==
@@ -173,6 +176,7 @@ Init0 ==
   /\ uid = [s \in Slot |-> 0] /\ uname = [s \in Slot |-> <<>>] /\ everNames = {}
   /\ queue = <<>> /\ rules = [s \in Slot |-> <<>>] /\ pend = <<>> /\ mon = [s \in Slot |-> <<>>]
   /\ fdx = [cap |-> [s \in Slot |-> FALSE], held |-> [s \in Slot |-> <<>>]]
+  /\ act = NoAct
   /\ out = <<>>
 
 Connect(s, u, fdcap) ==
@@ -180,14 +184,14 @@ Connect(s, u, fdcap) ==
   /\ cst' = [cst EXCEPT ![s] = "incomplete"] /\ uid' = [uid EXCEPT ![s] = u]
   /\ fdx' = [cap |-> [fdx.cap EXCEPT ![s] = fdcap], held |-> [fdx.held EXCEPT ![s] = <<>>]]
   /\ out' = <<>>
-  /\ UNCHANGED <<cfg, dying, uname, everNames, queue, rules, pend, mon>>
+  /\ UNCHANGED <<act, cfg, dying, uname, everNames, queue, rules, pend, mon>>
 
 \* the client closes its socket; the daemon notices later (Drop)
 ClientClose(s) ==
   /\ cst[s] # "absent" /\ ~dying[s]
   /\ dying' = [dying EXCEPT ![s] = TRUE]
   /\ out' = <<>>
-  /\ UNCHANGED <<fdx, cfg, cst, uid, uname, everNames, queue, rules, pend, mon>>
+  /\ UNCHANGED <<act, fdx, cfg, cst, uid, uname, everNames, queue, rules, pend, mon>>
 
 NumCompleted == Cardinality({x \in Slot : cst[x] \in {"active", "monitor"}})
 NumOfUser(u) == Cardinality({x \in Slot : cst[x] \in {"active", "monitor"} /\ uid[x] = u})
@@ -226,12 +230,12 @@ NoReplyFlag(call) == (call.fl % 2) = 1
 \* A driver call that changes nothing: `rep` is the reply (or error) message for the caller
 Answer(s, call, rep) ==
   /\ out' = Capture(Now, call, s, NoSlot) \o FromBus(Now, s, rep) \o EavesCopies(Now, s, call, NoSlot)
-  /\ UNCHANGED <<fdx, cfg, cst, dying, uid, uname, everNames, queue, rules, pend, mon>>
+  /\ UNCHANGED <<act, fdx, cfg, cst, dying, uid, uname, everNames, queue, rules, pend, mon>>
 \* a refused or failed call is not matched against the rules of third parties at all (bus_dispatch jumps past
 \* bus_dispatch_matches): only monitors see it
 AnswerErr(s, call, ename) ==
   /\ out' = Capture(Now, call, s, NoSlot) \o FromBus(Now, s, ErrReply(DstOf(s), call.ser, ename))
-  /\ UNCHANGED <<fdx, cfg, cst, dying, uid, uname, everNames, queue, rules, pend, mon>>
+  /\ UNCHANGED <<act, fdx, cfg, cst, dying, uid, uname, everNames, queue, rules, pend, mon>>
 
 Hello(s, ser, fl, new) ==
   LET call == DriverCall(s, ser, BUS, S_Hello, <<>>, <<>>, fl) IN
@@ -252,25 +256,9 @@ Hello(s, ser, fl, new) ==
                   \o FromBus(W, s, Reply(new, ser, SigS, <<AStr(new)>>, "exact"))
                   \o OwnerChange(W, new, NoSlot, s)
                   \o EavesCopies(W, s, call2, NoSlot)
-        /\ UNCHANGED <<fdx, cfg, dying, uid, queue, rules, pend, mon>>
+        /\ UNCHANGED <<act, fdx, cfg, dying, uid, queue, rules, pend, mon>>
 
-RequestName(s, ser, fl, n, f) ==
-  LET call == DriverCall(s, ser, BUS, S_RequestName, <<cS, cU>>, <<AStr(n), AU32(f)>>, fl)
-      cl == NameClass(n) IN
-  /\ CanTalk(s)
-  /\ IF ~DriverGate(s, call) THEN AnswerErr(s, call, E_AccessDenied)
-     ELSE IF cl # "ok" THEN AnswerErr(s, call, E_InvalidArgs)
-     ELSE IF ~CanOwn(cfg.policy, Cred(s), n) THEN AnswerErr(s, call, E_AccessDenied)
-     ELSE IF HeldCount(queue, s) >= cfg.maxNames THEN AnswerErr(s, call, E_LimitsExceeded)
-     ELSE LET r == Acquire(QOf(queue, n), s, Flags(f))
-              qs == PutQ(queue, n, r.q)
-              W == World(cst, uname, qs, rules, mon) IN
-          /\ queue' = qs
-          /\ out' = Capture(Now, call, s, NoSlot)
-                    \o (IF r.w # NoSlot THEN OwnerChange(W, n, r.o, r.w) ELSE <<>>)
-                    \o FromBus(W, s, Reply(uname[s], ser, SigU, <<AU32(r.code)>>, "exact"))
-                    \o EavesCopies(W, s, call, NoSlot)
-          /\ UNCHANGED <<fdx, cfg, cst, dying, uid, uname, everNames, rules, pend, mon>>
+\* (RequestName: see the end of the module, after the routing operators it needs for held messages)
 
 ReleaseName(s, ser, fl, n) ==
   LET call == DriverCall(s, ser, BUS, S_ReleaseName, SigS, <<AStr(n)>>, fl)
@@ -290,7 +278,7 @@ ReleaseName(s, ser, fl, n) ==
                     \o (IF q[1].s = s THEN OwnerChange(W, n, s, nw) ELSE <<>>)
                     \o FromBus(W, s, Reply(uname[s], ser, SigU, <<AU32(1)>>, "exact"))
                     \o EavesCopies(W, s, call, NoSlot)
-          /\ UNCHANGED <<fdx, cfg, cst, dying, uid, uname, everNames, rules, pend, mon>>
+          /\ UNCHANGED <<act, fdx, cfg, cst, dying, uid, uname, everNames, rules, pend, mon>>
 
 \* ---- queries
 AllNames == {BUS} \cup {uname[x] : x \in {y \in Slot : cst[y] = "active"}} \cup DOMAIN queue
@@ -320,7 +308,7 @@ Query(s, ser, fl, kind, n) ==
             [] kind = "list" -> Answer(s, call, Reply(me, ser, SigAS, <<AStrs(SeqOfSet(AllNames))>>, "set1"))
             [] kind = "ping" -> IF NoReplyFlag(call)
                                 THEN /\ out' = Capture(Now, call, s, NoSlot) \o EavesCopies(Now, s, call, NoSlot)
-                                     /\ UNCHANGED <<fdx, cfg, cst, dying, uid, uname, everNames, queue, rules, pend, mon>>
+                                     /\ UNCHANGED <<act, fdx, cfg, cst, dying, uid, uname, everNames, queue, rules, pend, mon>>
                                 ELSE Answer(s, call, Reply(me, ser, <<>>, <<>>, "exact"))
 
 \* driver artefact: a client that is about to close first makes sure its earlier messages were dispatched (Ping
@@ -333,7 +321,7 @@ PingAndClose(s, ser) ==
                                 ELSE ErrReply(DstOf(s), ser, E_AccessDenied))
             \o (IF DriverGate(s, call) THEN EavesCopies(Now, s, call, NoSlot) ELSE <<>>)
   /\ dying' = [dying EXCEPT ![s] = TRUE]
-  /\ UNCHANGED <<fdx, cfg, cst, uid, uname, everNames, queue, rules, pend, mon>>
+  /\ UNCHANGED <<act, fdx, cfg, cst, uid, uname, everNames, queue, rules, pend, mon>>
 
 \* ---- match rules
 AddMatch(s, ser, fl, text) ==
@@ -349,7 +337,7 @@ AddMatch(s, ser, fl, text) ==
              out' = Capture(Now, call, s, NoSlot)
                     \o (IF NoReplyFlag(call) THEN <<>> ELSE FromBus(W, s, Reply(uname[s], ser, <<>>, <<>>, "exact")))
                     \o EavesCopies(W, s, call, NoSlot)
-          /\ UNCHANGED <<fdx, cfg, cst, dying, uid, uname, everNames, queue, pend, mon>>
+          /\ UNCHANGED <<act, fdx, cfg, cst, dying, uid, uname, everNames, queue, pend, mon>>
 
 \* index of the most recently added rule equal to r, or 0
 LastEqual(rs, r) == IF \E i \in 1..Len(rs) : RuleEqual(rs[i], r)
@@ -370,7 +358,7 @@ RemoveMatch(s, ser, fl, text) ==
              out' = Capture(Now, call, s, NoSlot)
                     \o (IF NoReplyFlag(call) THEN <<>> ELSE FromBus(Now, s, Reply(uname[s], ser, <<>>, <<>>, "exact")))
                     \o EavesCopies(W, s, call, NoSlot)
-          /\ UNCHANGED <<fdx, cfg, cst, dying, uid, uname, everNames, queue, pend, mon>>
+          /\ UNCHANGED <<act, fdx, cfg, cst, dying, uid, uname, everNames, queue, pend, mon>>
 
 \* KNOWN DEFECT (deviation, only enabled by BusTrace while listed open in known-findings.json):
 \* RemoveMatch of a rule the caller does not hold stages the success reply before it looks for the rule and
@@ -382,7 +370,7 @@ Dev_RemoveMatchAckThenError(s, ser, fl, text) ==
   /\ out' = Capture(Now, call, s, NoSlot)
             \o FromBus(Now, s, Reply(uname[s], ser, <<>>, <<>>, "exact"))
             \o FromBus(Now, s, ErrReply(uname[s], ser, E_MatchRuleNotFound))
-  /\ UNCHANGED <<fdx, cfg, cst, dying, uid, uname, everNames, queue, rules, pend, mon>>
+  /\ UNCHANGED <<act, fdx, cfg, cst, dying, uid, uname, everNames, queue, rules, pend, mon>>
 
 \* ------------------------------------------------------------------ disconnect processing
 \* bus_connection_disconnected: match rules go first, then every name (each in its own transaction, unique name
@@ -432,7 +420,7 @@ Drop(s, order) ==
      /\ out' = d.em
                \o (IF wasActive THEN OwnerChange(W1, uname[s], s, NoSlot) ELSE <<>>)
      /\ fdx' = [fdx EXCEPT !.held[s] = <<>>, !.cap[s] = FALSE]      \* descriptors it had sent but not used are closed
-     /\ UNCHANGED <<cfg, uid, everNames>>
+     /\ UNCHANGED <<act, cfg, uid, everNames>>
 
 \* a pending reply expires (reply_timeout elapsed, or the callee is gone): NoReply to the caller, exactly once
 ExpirePending(i) ==
@@ -440,10 +428,10 @@ ExpirePending(i) ==
   /\ LET p == pend[i] IN
      /\ pend' = RemoveAt(pend, i)
      /\ out' = FromBus(Now, p.caller, ErrReply(uname[p.caller], p.ser, E_NoReply))
-  /\ UNCHANGED <<fdx, cfg, cst, dying, uid, uname, everNames, queue, rules, mon>>
+  /\ UNCHANGED <<act, fdx, cfg, cst, dying, uid, uname, everNames, queue, rules, mon>>
 
 KillKeep(s) == /\ dying' = [dying EXCEPT ![s] = TRUE]
-               /\ UNCHANGED <<cfg, cst, uid, uname, everNames, queue, rules, pend, mon>>
+               /\ UNCHANGED <<act, cfg, cst, uid, uname, everNames, queue, rules, pend, mon>>
 Kill(s) == KillKeep(s) /\ UNCHANGED fdx
 
 \* ---- monitors (org.freedesktop.DBus.Monitoring.BecomeMonitor)
@@ -483,7 +471,7 @@ BecomeMonitor(s, ser, fl, texts, flags, order) ==
                     \o OwnerChange(W0, uname[s], s, NoSlot)
                     \o d.em
                     \o EavesCopies(World(cst', uname, d.qs, rl2, mon'), s, call, NoSlot)
-          /\ UNCHANGED <<fdx, cfg, dying, uid, uname, everNames>>
+          /\ UNCHANGED <<act, fdx, cfg, dying, uid, uname, everNames>>
 
 \* a monitor that sends anything at all is disconnected
 MonitorSpeaks(s) == cst[s] = "monitor" /\ Kill(s) /\ out' = <<>>
@@ -495,7 +483,7 @@ MonitorSpeaks(s) == cst[s] = "monitor" /\ Kill(s) /\ out' = <<>>
 OomAbort(s, ser) ==
   /\ CanTalk(s)
   /\ out' = <<To(s, Msg(3, BUS, <<>>, 0, ser, <<>>, <<>>, <<>>, E_NoMemory, <<>>, <<>>, 1, 0, "errtext"))>>
-  /\ UNCHANGED <<fdx, cfg, cst, dying, uid, uname, everNames, queue, rules, pend, mon>>
+  /\ UNCHANGED <<act, fdx, cfg, cst, dying, uid, uname, everNames, queue, rules, pend, mon>>
 
 \* KNOWN DEFECT (deviation OomKeepsQueueChange): changes to the waiting queue that do not change the primary owner
 \* are made outside the transaction -- a queued owner leaving (ReleaseName), the requester's stale entry dropped on
@@ -509,7 +497,7 @@ Dev_OomKeepsQueueChange(s, ser, kind, n, f) ==
      ELSE q # <<>> /\ InQ(q, s) /\ q[1].s # s
   /\ queue' = PutQ(queue, n, q2)
   /\ out' = <<To(s, Msg(3, BUS, <<>>, 0, ser, <<>>, <<>>, <<>>, E_NoMemory, <<>>, <<>>, 1, 0, "errtext"))>>
-  /\ UNCHANGED <<fdx, cfg, cst, dying, uid, uname, everNames, rules, pend, mon>>
+  /\ UNCHANGED <<act, fdx, cfg, cst, dying, uid, uname, everNames, rules, pend, mon>>
 
 \* KNOWN DEFECT (deviation OomHelloHalfDone): bus_driver_handle_hello completes the connection (unique name, policy,
 \* counters) before the steps that can still fail; when one of them runs out of memory the caller gets NoMemory but
@@ -518,10 +506,36 @@ Dev_OomHelloHalfDone(s, ser, name) ==
   /\ cst[s] = "incomplete" /\ name \notin everNames
   /\ cst' = [cst EXCEPT ![s] = "active"] /\ uname' = [uname EXCEPT ![s] = name] /\ everNames' = everNames \cup {name}
   /\ out' = <<To(s, Msg(3, BUS, <<>>, 0, ser, <<>>, <<>>, <<>>, E_NoMemory, <<>>, <<>>, 1, 0, "errtext"))>>
-  /\ UNCHANGED <<fdx, cfg, dying, uid, queue, rules, pend, mon>>
+  /\ UNCHANGED <<act, fdx, cfg, dying, uid, queue, rules, pend, mon>>
 
 \* bytes that are not a valid message, or a message over max_message_size: the sender is disconnected, nothing else
 Corrupt(s) == /\ cst[s] # "absent" /\ Kill(s) /\ out' = <<>>
+
+\* ------------------------------------------------------------------ activation (bus/activation.c)
+\* cfg.act: Seq of [n, kind] -- the names service files provide: kind "ok" (Exec runs), "noexec" (the program does not
+\* exist: the start fails a moment after it began), "badquote" (the Exec line cannot be split into arguments)
+ActIdx(n) == IF \E i \in 1..Len(cfg.act) : cfg.act[i].n = n THEN CHOOSE i \in 1..Len(cfg.act) : cfg.act[i].n = n ELSE 0
+ActKind(n) == IF ActIdx(n) = 0 THEN "none" ELSE cfg.act[ActIdx(n)].kind
+PIdx(ap, n) == IF \E i \in 1..Len(ap) : ap[i].n = n THEN CHOOSE i \in 1..Len(ap) : ap[i].n = n ELSE 0
+RECURSIVE SumEntries(_, _)
+SumEntries(ap, i) == IF i > Len(ap) THEN 0 ELSE Len(ap[i].entries) + SumEntries(ap, i + 1)
+SpawnCount(n) == IF n \in DOMAIN act.spawned THEN act.spawned[n] ELSE 0
+Bump(sp, n) == [x \in (DOMAIN sp) \cup {n} |-> IF x = n THEN (IF n \in DOMAIN sp THEN sp[n] ELSE 0) + 1 ELSE sp[x]]
+\* bus_activation_activate_service for connection s and message m (auto: held message; otherwise StartServiceByName):
+\* [err, act, running].  The checks come in this order; a start that is already under way is joined before the Exec
+\* line is even looked at; a new start creates the pending activation and spawns exactly one process.
+Activate(s, m, auto, n) ==
+  LET i == PIdx(act.pend, n)
+      e == [auto |-> auto, s |-> s, un |-> uname[s], m |-> m]
+      res(err, a, run) == [err |-> err, act |-> a, running |-> run] IN
+  IF SumEntries(act.pend, 1) >= cfg.maxPendingAct THEN res(E_LimitsExceeded, act, FALSE)
+  ELSE IF ActKind(n) = "none" THEN res(E_ServiceUnknown, act, FALSE)
+  ELSE IF auto /\ ~CanSend(cfg.policy, Cred(s), m, FALSE, FALSE, {n}) THEN res(E_AccessDenied, act, FALSE)
+  ELSE IF ~auto /\ n \in DOMAIN queue THEN res(<<>>, act, TRUE)
+  ELSE IF i # 0 THEN res(<<>>, [act EXCEPT !.pend[i].entries = Append(@, e)], FALSE)
+  ELSE IF ActKind(n) = "badquote" THEN res(E_InvalidArgs, act, FALSE)
+  ELSE res(<<>>, [pend |-> Append(act.pend, [n |-> n, entries |-> <<e>>, born |-> cfg.epoch]),
+                  spawned |-> Bump(act.spawned, n)], FALSE)
 
 \* the security gate for the addressed recipient (bus_context_check_security_policy with proposed = addressed):
 \* result [ok, err, pd] where pd is the pending-reply table afterwards (changes stay even when a later check
@@ -533,20 +547,22 @@ FindPend(pd, caller, callee, ser) ==
   ELSE 0
 CountPend(pd, caller) == Cardinality({i \in 1..Len(pd) : pd[i].caller = caller})
 
-Gate(s, adr, m) ==
-  LET k == IF m.rs # 0 THEN FindPend(pend, adr, s, m.rs) ELSE 0
+GateW(pd, qs, s, adr, m) ==
+  LET k == IF m.rs # 0 THEN FindPend(pd, adr, s, m.rs) ELSE 0
       requested == k # 0
-      pd1 == IF k # 0 THEN RemoveAt(pend, k) ELSE pend
+      pd1 == IF k # 0 THEN RemoveAt(pd, k) ELSE pd
       wantsReply == m.ty = 1 /\ (m.fl % 2) = 0 IN
-  IF m.ty \notin 1..4 THEN [ok |-> FALSE, err |-> E_AccessDenied, pd |-> pend]
-  ELSE IF ~CanSend(cfg.policy, Cred(s), m, requested, TRUE, HeldNames(queue, uname, adr))
+  IF m.ty \notin 1..4 THEN [ok |-> FALSE, err |-> E_AccessDenied, pd |-> pd]
+  ELSE IF ~CanSend(cfg.policy, Cred(s), m, requested, TRUE, HeldNames(qs, uname, adr))
        THEN [ok |-> FALSE, err |-> E_AccessDenied, pd |-> pd1]
-  ELSE IF ~CanReceive(cfg.policy, Cred(adr), m, requested, HeldNames(queue, uname, s), FALSE)
+  ELSE IF ~CanReceive(cfg.policy, Cred(adr), m, requested, HeldNames(qs, uname, s), FALSE)
        THEN [ok |-> FALSE, err |-> E_AccessDenied, pd |-> pd1]
   ELSE IF ~wantsReply THEN [ok |-> TRUE, err |-> <<>>, pd |-> pd1]
   ELSE IF FindPend(pd1, s, adr, m.ser) # 0 THEN [ok |-> FALSE, err |-> E_AccessDenied, pd |-> pd1]
   ELSE IF CountPend(pd1, s) >= cfg.maxReplies THEN [ok |-> FALSE, err |-> E_LimitsExceeded, pd |-> pd1]
   ELSE [ok |-> TRUE, err |-> <<>>, pd |-> Append(pd1, [caller |-> s, callee |-> adr, ser |-> m.ser, born |-> cfg.epoch, orph |-> 0])]
+
+Gate(s, adr, m) == GateW(pend, queue, s, adr, m)
 
 \* rule-matched recipients of a client's message: each passes its own gate, refusals are silent
 RuleCopies(W, s, m, adr) ==
@@ -579,16 +595,22 @@ Send(s, m0, rest) ==
                     ELSE IF m.ifc = S_org_freedesktop_DBus_Peer /\ m.mem = S_Ping /\ m.sig = <<>>
                          THEN <<To(s, Reply(DstOf(s), m.ser, <<>>, <<>>, "exact"))>>
                     ELSE <<To(s, ErrReply(DstOf(s), m.ser, E_UnknownMethod))>>
-          /\ UNCHANGED <<cfg, cst, dying, uid, uname, everNames, queue, rules, pend, mon>>
+          /\ UNCHANGED <<act, cfg, cst, dying, uid, uname, everNames, queue, rules, pend, mon>>
      ELSE IF cst[s] = "incomplete" THEN KillKeep(s) /\ out' = Capture(Now, m, s, NoSlot)  \* not registered yet
-     ELSE IF m.dst # <<>> /\ adr = NoSlot THEN
+     ELSE IF m.dst # <<>> /\ adr = NoSlot /\ AutoStart(m) THEN
+          \* nobody owns the name: start the service that provides it, or join the start already under way; the
+          \* message is held (no answer now) unless the start is refused
+          LET a == Activate(s, m, TRUE, m.dst) IN
+          /\ act' = a.act
           /\ out' = Capture(Now, m, s, NoSlot)
-                    \o FromBus(Now, s, ErrReply(uname[s], m.ser,
-                                 IF AutoStart(m) THEN E_ServiceUnknown ELSE E_NameHasNoOwner))
+                    \o (IF a.err # <<>> THEN FromBus(Now, s, ErrReply(uname[s], m.ser, a.err)) ELSE <<>>)
           /\ UNCHANGED <<cfg, cst, dying, uid, uname, everNames, queue, rules, pend, mon>>
+     ELSE IF m.dst # <<>> /\ adr = NoSlot THEN
+          /\ out' = Capture(Now, m, s, NoSlot) \o FromBus(Now, s, ErrReply(uname[s], m.ser, E_NameHasNoOwner))
+          /\ UNCHANGED <<act, cfg, cst, dying, uid, uname, everNames, queue, rules, pend, mon>>
      ELSE IF adr = NoSlot THEN          \* broadcast signal
           /\ out' = Capture(Now, m, s, NoSlot) \o RuleCopies(Now, s, m, NoSlot)
-          /\ UNCHANGED <<cfg, cst, dying, uid, uname, everNames, queue, rules, pend, mon>>
+          /\ UNCHANGED <<act, cfg, cst, dying, uid, uname, everNames, queue, rules, pend, mon>>
      ELSE LET g == Gate(s, adr, m)
               \* a message with descriptors only goes to connections that negotiated descriptor passing; the check
               \* comes after the gate (so the gate's bookkeeping stays even when this check refuses the message)
@@ -597,7 +619,7 @@ Send(s, m0, rest) ==
           /\ out' = Capture(Now, m, s, adr)
                     \o (IF g.ok /\ fdok THEN <<To(adr, m)>> \o RuleCopies(Now, s, m, adr)
                         ELSE FromBus(Now, s, ErrReply(uname[s], m.ser, IF g.ok THEN E_NotSupported ELSE g.err)))
-          /\ UNCHANGED <<cfg, cst, dying, uid, uname, everNames, queue, rules, mon>>
+          /\ UNCHANGED <<act, cfg, cst, dying, uid, uname, everNames, queue, rules, mon>>
 
 \* KNOWN DEFECT (deviation): a non-signal without destination is handed back to libdbus inside the daemon, which
 \* answers it without any transaction: the reply carries no SENDER at all, its DESTINATION is whatever SENDER
@@ -608,7 +630,7 @@ Dev_LocalReplyUnstamped(s, m0, fsnd) ==
   /\ out' = IF m0.ifc = S_org_freedesktop_DBus_Peer /\ m0.mem = S_Ping /\ m0.sig = <<>>
             THEN <<To(s, Msg(2, <<>>, fsnd, 0, m0.ser, <<>>, <<>>, <<>>, <<>>, <<>>, <<>>, 1, 0, "exact"))>>
             ELSE <<To(s, Msg(3, <<>>, fsnd, 0, m0.ser, <<>>, <<>>, <<>>, E_UnknownMethod, SigS, <<>>, 1, 0, "errtext"))>>
-  /\ UNCHANGED <<fdx, cfg, cst, dying, uid, uname, everNames, queue, rules, pend, mon>>
+  /\ UNCHANGED <<act, fdx, cfg, cst, dying, uid, uname, everNames, queue, rules, pend, mon>>
 
 \* anything else addressed to the driver: replies and signals are ignored, unknown methods refused
 DriverOther(s, m0) ==
@@ -620,7 +642,96 @@ DriverOther(s, m0) ==
   /\ IF ~DriverGate(s, m) THEN AnswerErr(s, m, E_AccessDenied)
      ELSE IF m.ty # 1 THEN
           /\ out' = Capture(Now, m, s, NoSlot) \o EavesCopies(Now, s, m, NoSlot)
-          /\ UNCHANGED <<fdx, cfg, cst, dying, uid, uname, everNames, queue, rules, pend, mon>>
+          /\ UNCHANGED <<act, fdx, cfg, cst, dying, uid, uname, everNames, queue, rules, pend, mon>>
      ELSE AnswerErr(s, m, IF knownIfc THEN E_UnknownMethod ELSE E_UnknownInterface)
+
+\* ------------------------------------------------------------------ activation, continued
+\* is the connection that left this entry still there, as far as the daemon knows?  (`maybe`: connections whose
+\* socket the client has closed while the daemon has not noticed yet)
+EntryLive(e, maybe) == cst[e.s] = "active" /\ uname[e.s] = e.un /\ (~dying[e.s] \/ e.s \in maybe)
+\* the service has taken its name (slot w): StartServiceByName callers are told "started" (1), then the held messages
+\* are dispatched in the order they arrived, each through the ordinary gate (a refusal goes to its sender only)
+RECURSIVE HeldOut(_,_,_,_,_,_)
+HeldOut(W, pd, es, i, w, maybe) ==
+  IF i > Len(es) THEN [pd |-> pd, out |-> <<>>]
+  ELSE LET e == es[i] IN
+       IF ~e.auto \/ ~EntryLive(e, maybe) THEN HeldOut(W, pd, es, i + 1, w, maybe)
+       ELSE LET g == GateW(pd, W.qs, e.s, w, e.m)
+                fdok == e.m.nfd = 0 \/ fdx.cap[w]
+                now == IF g.ok /\ fdok THEN <<To(w, e.m)>> \o RuleCopies(W, e.s, e.m, w)
+                       ELSE FromBus(W, e.s, ErrReply(e.un, e.m.ser, IF g.ok THEN E_NotSupported ELSE g.err))
+                rest == HeldOut(W, g.pd, es, i + 1, w, maybe) IN
+            [pd |-> rest.pd, out |-> now \o rest.out]
+RECURSIVE StartedOut(_,_,_,_)
+StartedOut(W, es, i, maybe) ==
+  IF i > Len(es) THEN <<>>
+  ELSE (IF ~es[i].auto /\ EntryLive(es[i], maybe)
+        THEN FromBus(W, es[i].s, Reply(es[i].un, es[i].m.ser, SigU, <<AU32(1)>>, "exact")) ELSE <<>>)
+       \o StartedOut(W, es, i + 1, maybe)
+DyingWaiters(n) == LET i == PIdx(act.pend, n) IN
+  IF i = 0 THEN {} ELSE {act.pend[i].entries[k].s : k \in {j \in 1..Len(act.pend[i].entries) : dying[act.pend[i].entries[j].s]}}
+
+RequestName(s, ser, fl, n, f) ==
+  LET call == DriverCall(s, ser, BUS, S_RequestName, <<cS, cU>>, <<AStr(n), AU32(f)>>, fl)
+      cl == NameClass(n) IN
+  /\ CanTalk(s)
+  /\ IF ~DriverGate(s, call) THEN AnswerErr(s, call, E_AccessDenied)
+     ELSE IF cl # "ok" THEN AnswerErr(s, call, E_InvalidArgs)
+     ELSE IF ~CanOwn(cfg.policy, Cred(s), n) THEN AnswerErr(s, call, E_AccessDenied)
+     ELSE IF HeldCount(queue, s) >= cfg.maxNames THEN AnswerErr(s, call, E_LimitsExceeded)
+     ELSE LET r == Acquire(QOf(queue, n), s, Flags(f))
+              qs == PutQ(queue, n, r.q)
+              W == World(cst, uname, qs, rules, mon)
+              pi == IF QOf(queue, n) = <<>> THEN PIdx(act.pend, n) ELSE 0 IN
+          /\ queue' = qs
+          /\ \E maybe \in SUBSET DyingWaiters(n) :
+               LET es == IF pi = 0 THEN <<>> ELSE act.pend[pi].entries
+                   h == HeldOut(W, pend, es, 1, s, maybe) IN
+               /\ pend' = h.pd
+               /\ out' = Capture(Now, call, s, NoSlot)
+                         \o (IF r.w # NoSlot THEN OwnerChange(W, n, r.o, r.w) ELSE <<>>)
+                         \o StartedOut(W, es, 1, maybe)
+                         \o h.out
+                         \o FromBus(W, s, Reply(uname[s], ser, SigU, <<AU32(r.code)>>, "exact"))
+                         \o EavesCopies(W, s, call, NoSlot)
+          /\ act' = IF pi = 0 THEN act ELSE [act EXCEPT !.pend = RemoveAt(@, pi)]
+          /\ UNCHANGED <<fdx, cfg, cst, dying, uid, uname, everNames, rules, mon>>
+
+\* org.freedesktop.DBus.StartServiceByName(name, flags): answered at once only if the name is already owned (2) or
+\* the start is refused; otherwise the caller waits for the outcome of the start like the held messages do
+StartService(s, ser, fl, n, flags) ==
+  LET call == DriverCall(s, ser, BUS, S_StartServiceByName, <<cS, cU>>, <<AStr(n), AU32(flags)>>, fl) IN
+  /\ CanTalk(s)
+  /\ IF ~DriverGate(s, call) THEN AnswerErr(s, call, E_AccessDenied)
+     ELSE LET a == Activate(s, call, FALSE, n) IN
+          IF a.err # <<>> THEN AnswerErr(s, call, a.err)
+          ELSE IF a.running THEN Answer(s, call, Reply(uname[s], ser, SigU, <<AU32(2)>>, "exact"))
+          ELSE /\ act' = a.act
+               /\ out' = Capture(Now, call, s, NoSlot) \o EavesCopies(Now, s, call, NoSlot)
+               /\ UNCHANGED <<fdx, cfg, cst, dying, uid, uname, everNames, queue, rules, pend, mon>>
+
+\* the start of n has failed (the process exited with a non-zero status or was killed, could not be executed, or
+\* the start timeout passed): every waiter that is still there gets this one error, and the activation is over
+RECURSIVE FailedOut(_,_,_,_)
+FailedOut(es, i, ename, maybe) ==
+  IF i > Len(es) THEN <<>>
+  ELSE (IF EntryLive(es[i], maybe)
+        THEN FromBus(Now, es[i].s, ErrReply(es[i].un, es[i].m.ser, ename)) ELSE <<>>)
+       \o FailedOut(es, i + 1, ename, maybe)
+ActivationFails(n, ename) ==
+  LET pi == PIdx(act.pend, n) IN
+  /\ pi # 0
+  /\ \E maybe \in SUBSET DyingWaiters(n) : out' = FailedOut(act.pend[pi].entries, 1, ename, maybe)
+  /\ act' = [act EXCEPT !.pend = RemoveAt(@, pi)]
+  /\ UNCHANGED <<fdx, cfg, cst, dying, uid, uname, everNames, queue, rules, pend, mon>>
+\* the started process ended: status 0 is ignored (the program may have put itself in the background), anything
+\* else fails the activation
+ChildExit(n, status, signaled) ==
+  IF PIdx(act.pend, n) = 0 \/ (status = 0 /\ ~signaled)
+  THEN out' = <<>> /\ UNCHANGED <<act, fdx, cfg, cst, dying, uid, uname, everNames, queue, rules, pend, mon>>
+  ELSE ActivationFails(n, IF signaled THEN S_org_freedesktop_DBus_Error_Spawn_ChildSignaled
+                          ELSE S_org_freedesktop_DBus_Error_Spawn_ChildExited)
+ExecFails(n) == ActKind(n) = "noexec" /\ ActivationFails(n, S_org_freedesktop_DBus_Error_Spawn_ExecFailed)
+ActTimeout(n) == ActivationFails(n, S_org_freedesktop_DBus_Error_TimedOut)
 
 =============================================================================
